@@ -9,6 +9,18 @@ bytes of a declared variable.
 """
 
 LOCALS = {"a": "B", "b": "H", "c": "I", "d": "Q", "e": "x", "g": "i", "f": (3, 1)}
+# a second program class whose declared stack is a multiple of 8 bytes: the
+# first temporary then starts on an 8-byte boundary (an 8-byte spill slot and a
+# 4-byte key slot share their top bytes if the first is released too early)
+LOCALS_ALIGNED = {"c": "I", "g": "i", "d": "Q"}
+# statements whose destination is a hash-map variable: the value that must
+# arrive in the variable's cell (size in bytes, function of the initial state)
+HASH_VALUES = {
+    "h1 = c + 1 (hash write)": (4, lambda st: st.local("c") + 1),
+    "h2 = h1 + d": (8, lambda st: st.zext(st.hash("h1", 4), 64) + st.local("d")),
+    "h2 = d * 3 + c (aligned frame)": (8, lambda st: st.local("d") * 3 + st.zext(st.local("c"), 64)),
+    "h2 = h2 + 5 (aligned frame)": (8, lambda st: st.hash("h2", 8) + 5),
+}
 MAPVARS = {"m1": "I", "m2": "Q"}
 HASHVARS = {"h1": "I", "h2": "q"}
 
@@ -47,6 +59,12 @@ def statements():
     def s_hash_hash(p):
         p.h2 = p.h1 + p.d
 
+    def s_aligned_1(p):
+        p.h2 = p.d * 3 + p.c
+
+    def s_aligned_2(p):
+        p.h2 = p.h2 + 5
+
     def s_dict_update(p):
         p.table.key.k1 = 5
         p.table.key.k2 = 7
@@ -66,6 +84,8 @@ def statements():
             "d = ktime": ("d", s_ktime), "c = prandom & 0xffff": ("c", s_prandom), "f = 1 (bit)": ("f", s_bit),
             "e = e * 2.5": ("e", s_fixed), "m1 = b + a": ("m1", s_map_from_local),
             "h2 = h1 + d": ("h2", s_hash_hash),
+            "h2 = d * 3 + c (aligned frame)": ("h2", s_aligned_1),
+            "h2 = h2 + 5 (aligned frame)": ("h2", s_aligned_2),
             "table[5,7] = (d, 9) (Dict update)": (None, s_dict_update),
             "c = table[5,7].v2 (Dict lookup)": ("c", s_dict_lookup)}
 
@@ -92,7 +112,9 @@ def build(stmt):
     hm.create_map = lambda *a, **k: next(fds)
     try:
         ns = {"license": "GPL"}
-        for n, f in LOCALS.items():
+        aligned = "(aligned frame)" in stmt
+        locs = LOCALS_ALIGNED if aligned else LOCALS
+        for n, f in locs.items():
             ns[n] = LocalVar(f)
         ns["amap"] = ArrayMap()
         for n, f in MAPVARS.items():
@@ -100,7 +122,8 @@ def build(stmt):
         ns["hmap"] = HashMap()
         for n, f in HASHVARS.items():
             ns[n] = ns["hmap"].globalVar(f)
-        ns["table"] = Dict(Key, Value)
+        if not aligned:
+            ns["table"] = Dict(Key, Value)
         dest, fn = statements()[stmt]
 
         def program(self):
@@ -112,7 +135,7 @@ def build(stmt):
         p = P()
         code = p.assemble()
         info = dict(code=code, dest=dest,
-                    locals={n: (f, getattr(P, n).relative_addr) for n, f in LOCALS.items()},
+                    locals={n: (f, getattr(P, n).relative_addr) for n, f in locs.items()},
                     mapvars={n: (f, p.__dict__[n]) for n, f in MAPVARS.items()},
                     hashvars={n: (f, getattr(P, n).count) for n, f in HASHVARS.items()},
                     map_size=ns["amap"].size, frame_bottom=P.stack,
